@@ -123,6 +123,29 @@ def zeros (n : Nat) : Bytes := List.replicate n 48
 /-- remove the trailing `'0'` characters (`trailing_zeros` of `lyplg_type_parse_dec64`) -/
 def stripTrailingZeros (ds : Bytes) : Bytes := (ds.reverse.dropWhile (· == 48)).reverse
 
+/-- the tail of `lyplg_type_parse_dec64`: the digits without the point, zero-padded to `fd` fraction digits, go to
+    `lyplg_type_parse_int("decimal64", …)` -/
+def decFinal (fd : Nat) (sg ip frs : Bytes) : Except VErr Int :=
+  parseInt Generated.dec64ParseBase Generated.dec64Min Generated.dec64Max (sg ++ ip ++ frs ++ zeros (fd - frs.length))
+
+/-- `lyplg_type_parse_dec64` after the optional sign `sg`: integer digits, optional `.` + digits (only if a digit
+    follows the point), trailing whitespace.  The fraction-digits check precedes the trailing-garbage check. -/
+def decBody (fd : Nat) (sg t : Bytes) : Except VErr Int :=
+  let ip := t.takeWhile isDigit
+  let r1 := t.dropWhile isDigit
+  match r1 with
+  | [] => decFinal fd sg ip []
+  | d :: r2 =>
+    if d.toNat == 46 && (r2.head?.map isDigit).getD false then
+      let fr := r2.takeWhile isDigit
+      let r3 := r2.dropWhile isDigit
+      let frs := stripTrailingZeros fr
+      if frs.length > fd then .error .FracDigits
+      else if !allSpace r3 then .error .BadChar
+      else decFinal fd sg ip frs
+    else if !allSpace r1 then .error .BadChar
+    else decFinal fd sg ip []
+
 /-- `lyplg_type_parse_dec64(fraction_digits, value, value_len)`; `value[value_len]` is the terminating NUL. -/
 def parseDec64 (fd : Nat) (value : Bytes) : Except VErr Int :=
   let v := value.dropWhile isSpace
@@ -130,25 +153,8 @@ def parseDec64 (fd : Nat) (value : Bytes) : Except VErr Int :=
   | [] => .error .Empty
   | c :: _ =>
     if !isDigit c && c.toNat != 45 && c.toNat != 43 then .error .BadChar
-    else
-      let sign : Bytes := if c.toNat == 45 || c.toNat == 43 then [c] else []
-      let t := if c.toNat == 45 || c.toNat == 43 then v.tail else v
-      let ip := t.takeWhile isDigit
-      let r1 := t.dropWhile isDigit
-      let final (frs : Bytes) : Except VErr Int :=
-        parseInt Generated.dec64ParseBase Generated.dec64Min Generated.dec64Max (sign ++ ip ++ frs ++ zeros (fd - frs.length))
-      match r1 with
-      | [] => final []
-      | d :: r2 =>
-        if d.toNat == 46 && (r2.head?.map isDigit).getD false then
-          let fr := r2.takeWhile isDigit
-          let r3 := r2.dropWhile isDigit
-          let frs := stripTrailingZeros fr
-          if frs.length > fd then .error .FracDigits
-          else if !allSpace r3 then .error .BadChar
-          else final frs
-        else if !allSpace r1 then .error .BadChar
-        else final []
+    else if c.toNat == 45 || c.toNat == 43 then decBody fd [c] v.tail
+    else decBody fd [] v
 
 /-! ## hints -/
 
